@@ -221,31 +221,34 @@ Proof.
 Qed.
 
 (* well-formed text of a forest: tag texts are words, groups are not empty *)
-Inductive wf_n (Q : tagfacts -> Prop) : fnode -> Prop :=
-| wf_tag t : Q t -> wf_n Q (FTag t)
-| wf_grp ch : ch <> [] -> Forall (wf_n Q) ch -> wf_n Q (FGroup ch).
+(* [wfg_n e Q]: every tag satisfies Q; with e = false every parenthesised group has a member, with e = true
+   empty groups "()" are allowed.  [wf_n] is the e = false instance (the conforming grammar). *)
+Inductive wfg_n (e : bool) (Q : tagfacts -> Prop) : fnode -> Prop :=
+| wf_tag t : Q t -> wfg_n e Q (FTag t)
+| wf_grp ch : (e = false -> ch <> []) -> Forall (wfg_n e Q) ch -> wfg_n e Q (FGroup ch).
+Notation wf_n := (wfg_n false).
 
-Lemma wf_n_weaken (Q R : tagfacts -> Prop) : (forall t, Q t -> R t) -> forall n, wf_n Q n -> wf_n R n.
+Lemma wf_n_weaken {e : bool} (Q R : tagfacts -> Prop) : (forall t, Q t -> R t) -> forall n, wfg_n e Q n -> wfg_n e R n.
 Proof.
-  intros HQR. apply (fnode_ind2 (fun n => wf_n Q n -> wf_n R n)).
+  intros HQR. apply (fnode_ind2 (fun n => wfg_n e Q n -> wfg_n e R n)).
   - intros t H. inversion H; subst. constructor. auto.
   - intros ch IH H. inversion H as [|ch' Hne Hall]; subst. constructor; [exact Hne|].
     rewrite Forall_forall in *. intros x Hx. apply IH; [exact Hx | apply Hall; exact Hx].
 Qed.
 
-Lemma wf_all_tags Q : forall n, wf_n Q n -> Forall Q (all_tags_n n).
+Lemma wf_all_tags {e : bool} Q : forall n, wfg_n e Q n -> Forall Q (all_tags_n n).
 Proof.
-  apply (fnode_ind2 (fun n => wf_n Q n -> Forall Q (all_tags_n n))).
+  apply (fnode_ind2 (fun n => wfg_n e Q n -> Forall Q (all_tags_n n))).
   - intros t H. inversion H; subst. simpl. constructor; [assumption | constructor].
   - intros ch IH H. inversion H as [|ch' Hne Hall]; subst. simpl.
     clear Hne H. induction ch as [|x ch IHch]; simpl; [constructor|].
     inversion IH; subst. inversion Hall; subst. apply Forall_app. split; auto.
 Qed.
 
-Lemma wf_forest_tags Q f : Forall (wf_n Q) f -> Forall Q (all_tags f).
+Lemma wf_forest_tags {e : bool} Q f : Forall (wfg_n e Q) f -> Forall Q (all_tags f).
 Proof.
   intros H. unfold all_tags. induction f as [|x f IH]; simpl; [constructor|].
-  inversion H; subst. apply Forall_app. split; [apply wf_all_tags; assumption | auto].
+  inversion H; subst. apply Forall_app. split; [apply (wf_all_tags (e:=e)); assumption | auto].
 Qed.
 
 Definition Qword (t : tagfacts) : Prop := word_shape (tf_org t).
@@ -265,30 +268,39 @@ Proof.
     apply dstep_comma. apply HP; assumption.
 Qed.
 
-Lemma drun_node : forall n, wf_n Qword n -> forall st, fresh st -> closed (drun st (fprint_n n)).
+Lemma dstep_open_close st : fresh st -> closed (dstep (dstep st ch_open) ch_close).
 Proof.
-  apply (fnode_ind2 (fun n => wf_n Qword n -> forall st, fresh st -> closed (drun st (fprint_n n)))).
+  intros (A & B & Cc & D). unfold dstep at 2. rewrite A. simpl. rewrite Cc. unfold dstep. simpl.
+  repeat split; simpl; auto.
+Qed.
+
+Lemma drun_node {e : bool} : forall n, wfg_n e Qword n -> forall st, fresh st -> closed (drun st (fprint_n n)).
+Proof.
+  apply (fnode_ind2 (fun n => wfg_n e Qword n -> forall st, fresh st -> closed (drun st (fprint_n n)))).
   - intros t H st Hst. inversion H; subst. simpl. apply drun_word; assumption.
   - intros ch IH H st Hst. inversion H as [|ch' Hne Hall]; subst.
     change (fprint_n (FGroup ch)) with ([ch_open] ++ join [ch_comma] (map fprint_n ch) ++ [ch_close]).
-    rewrite drun_app, drun_app, !drun_single. apply dstep_close.
-    apply (drun_join (fun n => wf_n Qword n /\ (wf_n Qword n -> forall st, fresh st -> closed (drun st (fprint_n n))))).
-    + intros n [Hw Hn]. apply Hn. exact Hw.
-    + exact Hne.
-    + rewrite Forall_forall in *. intros x Hx. split; [apply Hall; exact Hx | apply IH; exact Hx].
-    + apply dstep_open. exact Hst.
+    rewrite drun_app, drun_app, !drun_single.
+    destruct ch as [|c0 ch0].
+    + simpl. apply dstep_open_close. exact Hst.
+    + apply dstep_close.
+      apply (drun_join (fun n => wfg_n e Qword n /\ (wfg_n e Qword n -> forall st, fresh st -> closed (drun st (fprint_n n))))).
+      * intros n [Hw Hn]. apply Hn. exact Hw.
+      * discriminate.
+      * rewrite Forall_forall in *. intros x Hx. split; [apply Hall; exact Hx | apply IH; exact Hx].
+      * apply dstep_open. exact Hst.
 Qed.
 
 Lemma fresh_d0 : fresh d0.
 Proof. repeat split. Qed.
 
 (* printing a well-formed forest: the delimiter scan reports nothing *)
-Lemma delims_clean f : Forall (wf_n Qword) f -> check_delims (fprint f) = [].
+Lemma delims_clean {e : bool} f : Forall (wfg_n e Qword) f -> check_delims (fprint f) = [].
 Proof.
   intros H. unfold check_delims, fprint. destruct f as [|x f].
   - reflexivity.
   - assert (Hc : closed (drun d0 (join [ch_comma] (map fprint_n (x :: f))))).
-    { apply (drun_join (wf_n Qword)); [intros n Hn; apply drun_node; exact Hn | discriminate | exact H | exact fresh_d0]. }
+    { apply (drun_join (wfg_n e Qword)); [intros n Hn; eapply drun_node; exact Hn | discriminate | exact H | exact fresh_d0]. }
     destruct Hc as (A & B & Cc & D). unfold dfinish. rewrite D, B. reflexivity.
 Qed.
 
@@ -326,28 +338,28 @@ Proof.
     rewrite <- !app_assoc. rewrite HP by exact Hx. simpl. apply IH. exact Hl.
 Qed.
 
-Lemma balanced_node : forall n, wf_n Qword n ->
+Lemma balanced_node {e : bool} : forall n, wfg_n e Qword n ->
   forall d rest, balanced_from d (fprint_n n ++ rest) = balanced_from d rest.
 Proof.
-  apply (fnode_ind2 (fun n => wf_n Qword n ->
+  apply (fnode_ind2 (fun n => wfg_n e Qword n ->
            forall d rest, balanced_from d (fprint_n n ++ rest) = balanced_from d rest)).
   - intros t H d rest. inversion H; subst. simpl. apply balanced_from_plain. apply word_shape_plain. assumption.
   - intros ch IH H d rest. inversion H as [|ch' Hne Hall]; subst.
     change (fprint_n (FGroup ch)) with ([ch_open] ++ join [ch_comma] (map fprint_n ch) ++ [ch_close]).
     rewrite <- !app_assoc. simpl.
-    rewrite (balanced_join (fun n => wf_n Qword n /\ (wf_n Qword n ->
+    rewrite (balanced_join (fun n => wfg_n e Qword n /\ (wfg_n e Qword n ->
                forall d rest, balanced_from d (fprint_n n ++ rest) = balanced_from d rest))).
     + reflexivity.
     + intros n [Hw Hn]. apply Hn. exact Hw.
     + rewrite Forall_forall in *. intros x Hx. split; [apply Hall; exact Hx | apply IH; exact Hx].
 Qed.
 
-Lemma parens_clean f : Forall (wf_n Qword) f -> check_parens (fprint f) = [].
+Lemma parens_clean {e : bool} f : Forall (wfg_n e Qword) f -> check_parens (fprint f) = [].
 Proof.
   intros H. unfold check_parens.
   assert (Hb : balanced (fprint f) = true).
   { unfold balanced, fprint. rewrite <- (app_nil_r (join [ch_comma] (map fprint_n f))).
-    rewrite (balanced_join (wf_n Qword)); [reflexivity | intros n Hn; apply balanced_node; exact Hn | exact H]. }
+    rewrite (balanced_join (wfg_n e Qword)); [reflexivity | intros n Hn; eapply balanced_node; exact Hn | exact H]. }
   destruct (paren_mismatch (fprint f)) eqn:Hm; [|reflexivity].
   apply unbalanced_iff_mismatch in Hm. congruence.
 Qed.
@@ -372,20 +384,20 @@ Section chars.
       rewrite !forallb_app. rewrite HP by exact Hx. simpl. rewrite ok_comma. simpl. apply IH. exact Hl.
   Qed.
 
-  Lemma okc_node : forall n, wf_n Qokc n -> forallb okc (fprint_n n) = true.
+  Lemma okc_node {e : bool} : forall n, wfg_n e Qokc n -> forallb okc (fprint_n n) = true.
   Proof.
-    apply (fnode_ind2 (fun n => wf_n Qokc n -> forallb okc (fprint_n n) = true)).
+    apply (fnode_ind2 (fun n => wfg_n e Qokc n -> forallb okc (fprint_n n) = true)).
     - intros t H. inversion H; subst. assumption.
     - intros ch IH H. inversion H as [|ch' Hne Hall]; subst.
       change (fprint_n (FGroup ch)) with ([ch_open] ++ join [ch_comma] (map fprint_n ch) ++ [ch_close]).
       rewrite !forallb_app. simpl. rewrite ok_open, ok_close. simpl. rewrite andb_true_r.
-      apply (okc_join (fun n => wf_n Qokc n /\ (wf_n Qokc n -> forallb okc (fprint_n n) = true))).
+      apply (okc_join (fun n => wfg_n e Qokc n /\ (wfg_n e Qokc n -> forallb okc (fprint_n n) = true))).
       + intros n [Hw Hn]. apply Hn. exact Hw.
       + rewrite Forall_forall in *. intros x Hx. split; [apply Hall; exact Hx | apply IH; exact Hx].
   Qed.
 
-  Lemma okc_forest f : Forall (wf_n Qokc) f -> forallb okc (fprint f) = true.
-  Proof. intros H. unfold fprint. apply (okc_join (wf_n Qokc)); [apply okc_node | exact H]. Qed.
+  Lemma okc_forest {e : bool} f : Forall (wfg_n e Qokc) f -> forallb okc (fprint f) = true.
+  Proof. intros H. unfold fprint. apply (okc_join (wfg_n e Qokc)); [apply okc_node | exact H]. Qed.
 End chars.
 
 Lemma delims_not_invalid cfg :
@@ -417,19 +429,19 @@ Qed.
 
 (* STRING LEVEL: printing any well-formed forest yields no CHARACTER_INVALID / TILDES /
    PARENTHESES_MISMATCH / TAG_EMPTY / COMMA_MISSING / NODE_NAME_EMPTY issue *)
-Theorem string_checks_clean cfg f :
-  Forall (wf_n (text_ok cfg)) f -> string_checks cfg (fprint f) f = [].
+Theorem string_checks_clean {e : bool} cfg f :
+  Forall (wfg_n e (text_ok cfg)) f -> string_checks cfg (fprint f) f = [].
 Proof.
   intros H. unfold string_checks.
-  assert (Hw : Forall (wf_n Qword) f).
+  assert (Hw : Forall (wfg_n e Qword) f).
   { eapply Forall_impl; [|exact H]. apply wf_n_weaken. intros t (A & _). exact A. }
   destruct (delims_not_invalid cfg) as (D1 & D2 & D3).
   rewrite check_chars_nil.
-  2:{ apply okc_forest; try assumption. eapply Forall_impl; [|exact H]. apply wf_n_weaken.
+  2:{ eapply okc_forest; try assumption. eapply Forall_impl; [|exact H]. apply wf_n_weaken.
       intros t (_ & A & _). exact A. }
-  rewrite parens_clean by exact Hw. rewrite delims_clean by exact Hw.
+  rewrite (parens_clean (e:=e)) by exact Hw. rewrite (delims_clean (e:=e)) by exact Hw.
   rewrite formatting_clean; [reflexivity|].
-  apply wf_forest_tags. eapply Forall_impl; [|exact H]. apply wf_n_weaken. intros t (_ & _ & A). exact A.
+  eapply wf_forest_tags. eapply Forall_impl; [|exact H]. apply wf_n_weaken. intros t (_ & _ & A). exact A.
 Qed.
 
 (* ---------------------------------------------------------------- where the tags of a forest live *)
@@ -544,14 +556,14 @@ Qed.
 
 (* BASIC PHASE: a forest whose text is well formed and whose tags satisfy the per-tag
    conditions passes run_basic_checks without raising and without an error *)
-Theorem basic_ok_no_error cfg f :
-  Forall (wf_n (tag_basic_ok cfg)) f ->
+Theorem basic_ok_no_error {e : bool} cfg f :
+  Forall (wfg_n e (tag_basic_ok cfg)) f ->
   exists b, run_basic_checks cfg (fprint f) f = Ok b /\ errors b = [].
 Proof.
   intros H.
-  assert (Htags : Forall (tag_basic_ok cfg) (all_tags f)) by (apply wf_forest_tags; exact H).
+  assert (Htags : Forall (tag_basic_ok cfg) (all_tags f)) by (eapply wf_forest_tags; exact H).
   assert (H1 : string_checks cfg (fprint f) f = []).
-  { apply string_checks_clean. eapply Forall_impl; [|exact H]. apply wf_n_weaken. intros t (A & _). exact A. }
+  { eapply string_checks_clean. eapply Forall_impl; [|exact H]. apply wf_n_weaken. intros t (A & _). exact A. }
   unfold run_basic_checks. rewrite H1. simpl.
   destruct (str_eqb (forest_str f) na_text); [exists []; split; reflexivity|].
   assert (H2 : tag_char_checks cfg f = []).
@@ -624,7 +636,7 @@ Lemma wf_groups_nonempty Q : forall n, wf_n Q n -> Forall (fun g => g <> []) (gr
 Proof.
   apply (fnode_ind2 (fun n => wf_n Q n -> Forall (fun g => g <> []) (groups_n n))).
   - intros t _. constructor.
-  - intros ch IH H. inversion H as [|ch' Hne Hall]; subst. simpl. constructor; [exact Hne|].
+  - intros ch IH H. inversion H as [|ch' Hne Hall]; subst. simpl. constructor; [apply Hne; reflexivity|].
     apply Forall_forall. intros g Hg. apply in_flat_map in Hg as (x & Hx & Hg).
     rewrite Forall_forall in IH, Hall. specialize (IH x Hx (Hall x Hx)). rewrite Forall_forall in IH. auto.
 Qed.
@@ -764,7 +776,7 @@ Qed.
 Lemma closed_of_forest f : f <> [] -> Forall (wf_n Qword) f -> closed (drun d0 (fprint f)).
 Proof.
   intros Hne H. unfold fprint.
-  apply (drun_join (wf_n Qword)); [intros n Hn; apply drun_node; exact Hn | exact Hne | exact H | exact fresh_d0].
+  apply (drun_join (wf_n Qword)); [intros n Hn; eapply drun_node; exact Hn | exact Hne | exact H | exact fresh_d0].
 Qed.
 
 (* a comma at the very beginning *)
@@ -1127,7 +1139,7 @@ Definition basic_clean (cfg : config) (s : str) (f : list fnode) : Prop :=
   exists b, run_basic_checks cfg s f = Ok b /\ has_error b = false.
 
 (* PHASE REACH, part 1: per-tag conformity + well-formed text => the basic phase is clean *)
-Lemma basic_clean_of_tags cfg f : Forall (wf_n (tag_basic_ok cfg)) f -> basic_clean cfg (fprint f) f.
+Lemma basic_clean_of_tags {e : bool} cfg f : Forall (wfg_n e (tag_basic_ok cfg)) f -> basic_clean cfg (fprint f) f.
 Proof.
   intros H. destruct (basic_ok_no_error cfg f H) as (b & Hb & He). exists b. split; [exact Hb|].
   apply has_error_false_errors. exact He.
@@ -1260,16 +1272,10 @@ Proof.
   apply in_flat_map. exists p. split; [exact Hp|]. rewrite Hno. left. reflexivity.
 Qed.
 
-(* ---- the duplicate check never raises when no group is empty *)
+(* ---- sorted views keep groups non-empty; the duplicate check never raises *)
 Definition Tr (t : tagfacts) : Prop := True.
 
-Lemma first_leaf_ok_wf : forall n, wf_n Tr n -> first_leaf_ok n = true.
-Proof.
-  apply (fnode_ind2 (fun n => wf_n Tr n -> first_leaf_ok n = true)).
-  - reflexivity.
-  - intros ch IH H. inversion H as [|ch' Hne Hall]; subst. destruct ch as [|c ch]; [congruence|].
-    simpl. inversion IH; subst. inversion Hall; subst. auto.
-Qed.
+
 
 Lemma insert_key_in {A} (x y : str * A) l : In y (insert_key x l) <-> y = x \/ In y l.
 Proof.
@@ -1304,82 +1310,56 @@ Proof.
   assert (H : In x (resort (x :: l))) by (apply resort_in; left; reflexivity). rewrite E in H. contradiction.
 Qed.
 
-Lemma sorted_children_wf ch :
-  Forall (fun c => wf_n Tr c -> wf_n Tr (sorted_n c)) ch -> Forall (wf_n Tr) ch ->
-  forall x, In x (resort (map snd (sort_key (flat_map (fun c => match c with FTag t => [(tstr t, FTag t)] | FGroup _ => [] end) ch)))
-                  ++ resort (map snd (sort_key (flat_map (fun c => match c with FGroup _ => [(node_str c, sorted_n c)] | FTag _ => [] end) ch))))
-            -> wf_n Tr x.
-Proof.
-  intros IH Hall x Hx. rewrite Forall_forall in IH, Hall.
-  apply in_app_or in Hx as [Hx | Hx]; apply (proj1 (resort_in _ _)) in Hx;
-    apply in_map_iff in Hx as ((k & y) & <- & Hy);
-    apply (proj1 (sort_key_in _ _)) in Hy; apply in_flat_map in Hy as (c & Hc & Hy).
-  - destruct c as [t | g]; [|contradiction]. destruct Hy as [Hy | []]. inversion Hy; subst.
-    constructor. exact I.
-  - destruct c as [t | g]; [contradiction|]. destruct Hy as [Hy | []]. inversion Hy; subst.
-    cbn [snd]. apply (IH (FGroup g)); [exact Hc | apply Hall; exact Hc].
-Qed.
 
-Lemma sorted_n_wf : forall n, wf_n Tr n -> wf_n Tr (sorted_n n).
-Proof.
-  apply (fnode_ind2 (fun n => wf_n Tr n -> wf_n Tr (sorted_n n))).
-  - intros t H. exact H.
-  - intros ch IH H. inversion H as [|ch' Hne Hall]; subst. simpl. constructor.
-    + destruct ch as [|c ch]; [congruence|]. intros E. apply app_eq_nil in E as [E1 E2].
-      apply resort_nil in E1. apply resort_nil in E2.
-      apply map_eq_nil in E1. apply map_eq_nil in E2. apply sort_key_nil in E1. apply sort_key_nil in E2.
-      destruct c as [t | g]; simpl in E1, E2; discriminate.
-    + apply Forall_forall. apply sorted_children_wf; assumption.
-Qed.
 
-Lemma dup_children_total ch :
-  Forall (fun c => wf_n Tr c /\ exists l, dup_n c = Ok l) ch -> exists l, dup_n (FGroup ch) = Ok l.
+
+
+(* since fix commit 3e47c8c the duplicate check never raises, whatever the annotation (empty groups included) *)
+Lemma dup_children_total_all ch :
+  Forall (fun c => exists l, dup_n c = Ok l) ch -> exists l, dup_n (FGroup ch) = Ok l.
 Proof.
-  intros H. simpl. generalize (@None fnode). induction H as [|c ch (Hw & lc & Hlc) Hch IH]; intros prev.
+  intros H. simpl. generalize (@None fnode). induction H as [|c ch (lc & Hlc) Hch IH]; intros prev.
   - exists []. reflexivity.
   - destruct (IH (Some c)) as (lr & Hlr).
     assert (Hh : exists lh, (if match prev with Some p => node_eqb c p | None => false end
                              then match c with
                                   | FTag _ => Ok [iss K_HED_TAG_REPEATED]
-                                  | FGroup _ => if first_leaf_ok c then Ok [iss K_HED_TAG_REPEATED_GROUP] else Exn IndexError
+                                  | FGroup _ => Ok [iss K_HED_TAG_REPEATED_GROUP]
                                   end
                              else Ok []) = Ok lh).
     { destruct (match prev with Some p => node_eqb c p | None => false end); [|eexists; reflexivity].
-      destruct c; [eexists; reflexivity|]. rewrite (first_leaf_ok_wf _ Hw). eexists; reflexivity. }
+      destruct c; eexists; reflexivity. }
     destruct Hh as (lh & Hlh). rewrite Hlh. simpl. rewrite Hlc. simpl. rewrite Hlr. simpl. eexists. reflexivity.
 Qed.
 
-Lemma dup_n_total : forall n, wf_n Tr n -> exists l, dup_n n = Ok l.
+Lemma dup_n_total_all : forall n, exists l, dup_n n = Ok l.
 Proof.
-  apply (fnode_ind2 (fun n => wf_n Tr n -> exists l, dup_n n = Ok l)).
-  - intros t _. exists []. reflexivity.
-  - intros ch IH H. inversion H as [|ch' Hne Hall]; subst. apply dup_children_total.
-    rewrite Forall_forall in *. intros c Hc. split; [apply Hall; exact Hc | apply IH; [exact Hc | apply Hall; exact Hc]].
+  apply (fnode_ind2 (fun n => exists l, dup_n n = Ok l)).
+  - intros t. exists []. reflexivity.
+  - intros ch IH. apply dup_children_total_all. exact IH.
+Qed.
+
+Lemma check_duplicates_total_all f : exists d, check_duplicates f = Ok d.
+Proof. unfold check_duplicates. apply dup_n_total_all. Qed.
+
+Lemma full_checks_total_all cfg f : exists fl, full_checks cfg f = Ok fl.
+Proof.
+  destruct (check_duplicates_total_all f) as (d & Hd). unfold full_checks. rewrite Hd. eexists. reflexivity.
 Qed.
 
 Lemma check_duplicates_total f : Forall (wf_n Tr) f -> exists d, check_duplicates f = Ok d.
-Proof.
-  intros H. unfold check_duplicates. simpl sorted_n. apply dup_children_total.
-  apply Forall_forall. intros x Hx.
-  assert (Hw : wf_n Tr x).
-  { revert x Hx. apply sorted_children_wf; [|exact H]. apply Forall_forall. intros c _. apply sorted_n_wf. }
-  split; [exact Hw | apply dup_n_total; exact Hw].
-Qed.
+Proof. intros _. apply check_duplicates_total_all. Qed.
 
 Lemma full_checks_total cfg Q f : Forall (wf_n Q) f -> exists fl, full_checks cfg f = Ok fl.
-Proof.
-  intros H. destruct (check_duplicates_total f) as (d & Hd).
-  { eapply Forall_impl; [|exact H]. apply wf_n_weaken. intros; exact I. }
-  unfold full_checks. rewrite Hd. eexists. reflexivity.
-Qed.
+Proof. intros _. apply full_checks_total_all. Qed.
 
 (* PHASE REACH: in a forest with well-formed text whose tags are individually conforming, an error of
    the full-string checks is never masked by the basic phase, and the full-string checks never raise *)
-Theorem phase_reach cfg f fl i :
-  Forall (wf_n (tag_basic_ok cfg)) f -> full_checks cfg f = Ok fl -> In i fl -> is_err i = true ->
+Theorem phase_reach {e : bool} cfg f fl i :
+  Forall (wfg_n e (tag_basic_ok cfg)) f -> full_checks cfg f = Ok fl -> In i fl -> is_err i = true ->
   reports cfg (fprint f) f (icode i).
 Proof.
-  intros H Hf Hin Hi. apply reports_full; [apply basic_clean_of_tags; exact H | exists fl; exact Hf | | exact Hi].
+  intros H Hf Hin Hi. apply reports_full; [eapply basic_clean_of_tags; exact H | exists fl; exact Hf | | exact Hi].
   intros fl' Hf'. rewrite Hf in Hf'. inversion Hf'; subst. exact Hin.
 Qed.
 
@@ -1453,7 +1433,7 @@ Lemma wfb_sound (p : tagfacts -> bool) (Q : tagfacts -> Prop) :
 Proof.
   intros HpQ. apply (fnode_ind2 (fun n => wfb p n = true -> wf_n Q n)).
   - intros t H. constructor. apply HpQ. exact H.
-  - intros ch IH H. simpl in H. destruct ch as [|c ch]; [discriminate|]. constructor; [discriminate|].
+  - intros ch IH H. simpl in H. destruct ch as [|c ch]; [discriminate|]. constructor; [intros _; discriminate|].
     rewrite forallb_forall in H. rewrite Forall_forall in *. intros x Hx. apply IH; [exact Hx | apply H; exact Hx].
 Qed.
 
@@ -1465,22 +1445,22 @@ Proof.
 Qed.
 
 (* ---- reaching the later phases from per-tag conditions on the (mutated) annotation *)
-Lemma reach_phase1 cfg f :
-  Forall (wf_n (text_ok cfg)) f -> str_eqb (forest_str f) na_text = false -> phase1_clean cfg (fprint f) f.
-Proof. intros H Hna. split; [rewrite string_checks_clean by exact H; reflexivity | exact Hna]. Qed.
+Lemma reach_phase1 {e : bool} cfg f :
+  Forall (wfg_n e (text_ok cfg)) f -> str_eqb (forest_str f) na_text = false -> phase1_clean cfg (fprint f) f.
+Proof. intros H Hna. split; [rewrite (string_checks_clean (e:=e)) by exact H; reflexivity | exact Hna]. Qed.
 
 Definition tag_pre3 (cfg : config) (t : tagfacts) : Prop :=
   text_ok cfg t /\ check_tag_invalid_chars cfg t = [] /\ tf_res_issues t = []
   /\ (exists l, units_dispatch cfg t = Ok l) /\ (exists l, tf_def_contents t = Ok l).
 
-Lemma reach_phase3 cfg f :
-  Forall (wf_n (tag_pre3 cfg)) f -> str_eqb (forest_str f) na_text = false ->
+Lemma reach_phase3 {e : bool} cfg f :
+  Forall (wfg_n e (tag_pre3 cfg)) f -> str_eqb (forest_str f) na_text = false ->
   phase2_clean cfg (fprint f) f /\ phase3_total cfg f.
 Proof.
   intros H Hna.
-  assert (Htags : Forall (tag_pre3 cfg) (all_tags f)) by (apply wf_forest_tags; exact H).
+  assert (Htags : Forall (tag_pre3 cfg) (all_tags f)) by (eapply wf_forest_tags; exact H).
   assert (H1 : phase1_clean cfg (fprint f) f).
-  { apply reach_phase1; [|exact Hna]. eapply Forall_impl; [|exact H]. apply wf_n_weaken. intros t (A & _). exact A. }
+  { eapply reach_phase1; [|exact Hna]. eapply Forall_impl; [|exact H]. apply wf_n_weaken. intros t (A & _). exact A. }
   assert (H2 : tag_char_checks cfg f = []).
   { unfold tag_char_checks. induction Htags as [|t l (_ & A & _) Hl IH]; [reflexivity|]. simpl. rewrite A. exact IH. }
   assert (H3 : resolution_issues f = []).
